@@ -477,11 +477,12 @@ func oracle(t []string, out string) *hx.Violation {
 		if t[9] != want0 || t[13] != want2 {
 			return &hx.Violation{Kind: "coinbase-address", Detail: "accepted coinbase pays CR/DPoS share to another address"}
 		}
-		// shares within one sela of 30% / 35% for totals below 2^50 (float rounding; checked, not proved)
+		// shares within one sela (either side: 0.35 as a float64 is slightly below 35%) of 30% / 35% for
+		// totals below 2^50 (float rounding; checked, not proved)
 		if total >= 0 && total < 1<<50 {
 			d30 := int64(cr)*10 - int64(total)*3
 			d35 := int64(dp)*100 - int64(total)*35
-			if d30 < 0 || d30 >= 20 || d35 < 0 || d35 >= 200 {
+			if d30 <= -10 || d30 >= 20 || d35 <= -100 || d35 >= 200 {
 				return &hx.Violation{Kind: "coinbase-share-rounding", Detail: "share differs from the exact ceiling by more than one sela"}
 			}
 		}
